@@ -29,6 +29,9 @@ type Tunnel struct {
 	// User
 	User identity.Identity
 
+	// pending holds bytes read from transportIn that belong to packets not processed yet
+	pending []byte
+
 	// rwc is the underlying connection to the remote desktop server.
 	// It is of the type *net.TCPConn
 	rwc net.Conn
@@ -56,7 +59,7 @@ func (t *Tunnel) Write(pkt []byte) {
 // packet, with the header removed, and the packet size. It updates the
 // statistics for bytes received
 func (t *Tunnel) Read() (pt int, size int, pkt []byte, err error) {
-	pt, size, pkt, err = readMessage(t.transportIn)
+	pt, size, pkt, err = readMessage(t.transportIn, &t.pending)
 	t.BytesReceived += int64(size)
 	t.LastSeen = time.Now()
 
